@@ -69,7 +69,8 @@ def check_case(ctx, cs):
                 o2 = build(sh)
                 W = [float(fr(q[-1])) for q in sh["P"]]
                 Pu = [[float(fr(x)) / w for x in q[:-1]] for q, w in zip(sh["P"], W)]
-                o2.ctrlpts = [[c + 1.0 + i for c in q] for i, q in enumerate(Pu)]      # some other net first
+                o2.set_ctrlpts([[c + 1.0 + i for c in q] + [1.0] for i, q in enumerate(Pu)], *sh["size"])      # some other net with unit weights first
+                _ = list(o2.weights), list(o2.ctrlpts)                                                    # (the getters are used in between)
                 o2.weights = list(W)
                 o2.ctrlpts = Pu
                 return o2.evaluate_single(arg), o2.evaluate_list([arg])[0]
